@@ -89,6 +89,7 @@ class World:
             op = BoundaryOperatorWithAssembler(self.spaces[d], self.spaces[q], self.spaces[u],
                                                StubAssembler(m, sparse=(k == 4)), None)
             self.atoms.append((op, (d, q, u), m))
+        self.pristine = [np.array(a[2], copy=True) for a in self.atoms]
         self.invmass = {}
         for _, (d, q, u), _ in self.atoms:
             key = (self.sid[q], self.sid[u])
@@ -254,6 +255,11 @@ def boundary_programs(w, out, n, depth, ncoq):
         if idx < ncoq:
             out["cases"].append(case)
         kind = classify_boundary(w, e, typed, t, m, obs)
+        if kind is None:
+            # no aliasing: evaluating an expression must leave the weak forms of all operands as they were
+            for k in sorted(set(_atoms_of(e))):
+                if not close(np.asarray(w.atoms[k][0].weak_form().to_dense()), w.pristine[k]):
+                    kind = "evaluating-the-expression-changed-the-weak-form-of-an-operand"
         if kind:
             small = shrink(e, lambda s: classify_boundary(w, s, *_ref_or_none(w, s), observe_boundary(w, s)) == kind)
             fails.append({"signature": "C14:boundary-algebra:" + kind, "what": "expression %s: %s" % (show(small), kind),
@@ -888,6 +894,87 @@ def gf_correspondence(w, out, n):
         out["gf_cases"].append(case)
 
 
+# ---- aliasing: assembling a derived operator must not change its operands (double and single precision) -------------------
+def aliasing_programs(w, out):
+    from scipy.sparse import csc_matrix
+    r, sp, fails = w.r, w.spaces, out["failures"]
+    s0 = sp[0]
+    n = s0.global_dof_count
+
+    def fresh_pool():
+        mats = {"dense-double": r.integers(-3, 4, (n, n)).astype("float64") + 5 * np.eye(n),
+                "dense-single": (r.integers(-3, 4, (n, n)) + 5 * np.eye(n)).astype("float32"),
+                "dense-complex64": (r.integers(-3, 4, (n, n)) + 1j * r.integers(-2, 3, (n, n)) + 5 * np.eye(n)).astype("complex64"),
+                "dense-complex128": (r.integers(-3, 4, (n, n)) + 1j * r.integers(-2, 3, (n, n)) + 5 * np.eye(n)).astype("complex128")}
+        pool = {k: (BoundaryOperatorWithAssembler(s0, s0, s0, StubAssembler(m), None), m.copy()) for k, m in mats.items()}
+        sm = r.integers(-2, 3, (n, n)).astype("float64") + 4 * np.eye(n)
+        pool["sparse-double"] = (BoundaryOperatorWithAssembler(s0, s0, s0, StubAssembler(sm, sparse=True), None), sm.copy())
+        return pool
+    f = api.GridFunction(s0, coefficients=r.integers(-3, 4, n).astype(float))
+    programs = [("neg", lambda a, b: -a), ("3*A", lambda a, b: 3 * a), ("A*3.0", lambda a, b: a * 3.0),
+                ("np.float32(2)*A", lambda a, b: np.float32(2) * a), ("(1+2j)*A", lambda a, b: (1 + 2j) * a),
+                ("A-B", lambda a, b: a - b), ("A+B", lambda a, b: a + b), ("A*B", lambda a, b: a * b),
+                ("(2*A)*B", lambda a, b: (2 * a) * b), ("A*(B*0.5)", lambda a, b: a * (b * 0.5)), ("A*f", lambda a, b: a * f),
+                ("(A-B).strong_form", lambda a, b: (a - b).strong_form()), ("-(A+B)", lambda a, b: -(a + b))]
+    for pname, prog in programs:
+        for an in ("dense-double", "dense-single", "dense-complex64", "dense-complex128", "sparse-double"):
+            for bn in ("dense-single", "dense-double"):
+                pool = fresh_pool()
+                a, b = pool[an][0], pool[bn][0]
+                first = {k: np.asarray(v[0].weak_form().to_dense()).copy() for k, v in pool.items()}
+                out["evaluations"] += 1
+                try:
+                    res = prog(a, b)
+                    if hasattr(res, "weak_form"):
+                        wf = res.weak_form()
+                        wf.to_dense()
+                        wf @ np.ones(wf.shape[1])
+                    elif hasattr(res, "to_dense"):
+                        res.to_dense()
+                    elif hasattr(res, "projections"):
+                        res.projections()
+                except Exception as ex:
+                    fails.append({"signature": "C14:aliasing:program-raises-%s" % type(ex).__name__,
+                                  "what": "%s with A=%s B=%s: %s" % (pname, an, bn, str(ex)[:100]), "data": {}})
+                    continue
+                for k, (op, m0) in pool.items():
+                    again = np.asarray(op.weak_form().to_dense())
+                    if not (close(again, m0) and close(again, first[k])):
+                        prec = "single" if k in ("dense-single", "dense-complex64") else "double"
+                        fails.append({"signature": "C14:aliasing:assembling-a-derived-operator-changes-the-cached-weak-form-of-an-"
+                                                   "operand[%s-precision-dense]" % prec if k.startswith("dense") else
+                                      "C14:aliasing:assembling-a-derived-operator-changes-the-cached-weak-form-of-an-operand[sparse]",
+                                      "what": "after assembling %s (A=%s, B=%s) the weak form of operand %s is no longer what it was "
+                                              "(max deviation %.3g)" % (pname, an, bn, k, float(np.max(np.abs(again - m0)))),
+                                      "data": {"program": pname, "A": an, "B": bn, "changed": k}})
+    # discrete level and grid functions
+    for dt in ("float64", "float32", "complex64"):
+        m = (r.integers(-3, 4, (n, n)) + 5 * np.eye(n)).astype(dt)
+        d = dbo.DenseDiscreteBoundaryOperator(m)
+        m0 = m.copy()
+        out["evaluations"] += 1
+        for name, g in (("D*3", lambda: d * 3), ("3*D", lambda: 3 * d), ("-D", lambda: -d), ("D+D", lambda: d + d),
+                        ("D*D", lambda: d * d), ("D*np.float64(2)", lambda: d * np.float64(2.0)), ("D.T", lambda: d.T)):
+            try:
+                x = g()
+                x.to_dense() if hasattr(x, "to_dense") else None
+            except Exception:
+                continue
+            if not close(np.asarray(d.to_dense()), m0):
+                fails.append({"signature": "C14:aliasing:discrete-%s-changes-its-operand[%s]" % (
+                    "scalar-multiple" if "3" in name or "2" in name else "operation", dt),
+                              "what": "after %s the matrix of the %s operand D changed" % (name, dt), "data": {"op": name}})
+                break
+    c0 = r.integers(-3, 4, n).astype(float)
+    g0 = api.GridFunction(s0, coefficients=c0.copy())
+    for name, g in (("2*f", lambda: 2 * g0), ("-f", lambda: -g0), ("f+f", lambda: g0 + g0), ("f/2", lambda: g0 / 2), ("f-f", lambda: g0 - g0)):
+        out["evaluations"] += 1
+        g()
+        if not close(g0.coefficients, c0):
+            fails.append({"signature": "C14:aliasing:grid-function-arithmetic-changes-its-operand",
+                          "what": "after %s the coefficients of f changed" % name, "data": {}})
+
+
 # ---- blocked operators with domain != range: correspondence with the blocked tables + deterministic search --------------
 def blocked_domain_range(w, out, thorough):
     from scipy.linalg import block_diag
@@ -1062,6 +1149,7 @@ def main():
         gridfun_checks(w, out, 60 if thorough else 20)
         gf_correspondence(w, out, 150 if thorough else 60)
         blocked_domain_range(w, out, thorough)
+        aliasing_programs(w, out)
         out["env"] = w.env_json()
     except Exception:
         out["crash"] = traceback.format_exc()
